@@ -197,7 +197,15 @@ func (g *c18Gen) stmts(depth int, vis []string) []*mj.Node {
 			g.labels["api-yieldblock"] = true
 			if g.n(0, 1, "yctx") == 0 {
 				g.labels["api-yieldblock-with-context"] = true
-				out = append(out, api("apiYield", mj.Str("shared"), mj.Str(g.id("yctx"))))
+				if g.n(0, 2, "yctxNothingBehind") == 0 {
+					// a context with nothing behind it (nil pointer, nil map, nil slice) is still the context handed over
+					nm := []string{"nilu", "nomap", "noxs"}[g.n(0, 2, "yctxNilKind")]
+					g.p.Vars[nm] = mj.Recipe{T: map[string]string{"nilu": "nil*user", "nomap": "nilmap", "noxs": "nil[]int"}[nm]}
+					g.labels["api-yieldblock-with-typed-nil-context"] = true
+					out = append(out, api("apiYield", mj.Str("shared"), mj.Var(nm)))
+				} else {
+					out = append(out, api("apiYield", mj.Str("shared"), mj.Str(g.id("yctx"))))
+				}
 			} else {
 				out = append(out, api("apiYield", mj.Str("shared")))
 			}
